@@ -948,8 +948,8 @@ def run(ctx):
     except Exception as e:  # noqa
         ctx.violation("import:geckolib.driver.protocol", {"kind": "import"}, "the protocol package imports", f"{type(e).__name__}: {e}")
         return
-    n_corr = 6000 if ctx.quick else 60000
-    n_search = 20000 if ctx.quick else 300000
+    n_corr = 6000 if ctx.quick else 100000
+    n_search = 20000 if ctx.quick else 1000000
     if all(v == "ok" for v in st.values()):
         correspondence(ctx, n_corr)
     seen = search(ctx, n_search)
